@@ -5,7 +5,7 @@
    used to state the round-trip theorems). *)
 From ReqV Require Import Lib.Bytes Model.H1Resp Model.H1Render Model.H1RenderHead
   Proofs.H1RespProofs Proofs.H1HeadProofs Proofs.H1MimeProofs Proofs.H1TransferProofs
-  Model.H1Conn Proofs.H1SyncProofs Proofs.H1ConnProofs Model.H1Bufio Proofs.H1BufioProofs.
+  Model.H1Conn Proofs.H1SyncProofs Proofs.H1ConnProofs Model.H1Bufio Proofs.H1BufioProofs Proofs.H1MessageProofs.
 From ReqV Require Gen.H1Tables.
 From Coq Require Import Lia.
 
@@ -377,6 +377,36 @@ Theorem C04_read_final_is_final : forall fuel meth n s r rest,
 Proof. exact read_final_is_final. Qed.
 Print Assumptions C04_read_final_is_final.
 
+(* End to end: a WHOLE well-formed length-delimited response - HTTP/1.1, any 3-digit status that
+   allows a body, any reason phrase, any list of well-formed (foldable, any-case) header fields
+   other than the framing fields, Content-Length = any decimal spelling of the body length -
+   followed by ANY bytes, for every non-HEAD method and every buffer size: accepted; status
+   line, header map, ContentLength, framing, keep-alive (Close = false), body bytes are exactly
+   what was sent, no trailers, and the message ends exactly after its body. *)
+Theorem C04_response_round_trip_length :
+  forall meth bufsize d1 d2 d3 reason fs cl body rest,
+  is_head meth = false ->
+  is_digit d1 = true -> is_digit d2 = true -> is_digit d3 = true ->
+  body_allowed_for_status (100 * dval d1 + 10 * dval d2 + dval d3)%Z = true ->
+  mem_byte LF reason = false ->
+  Forall field_ok fs -> Forall plain_field fs ->
+  parse_uint63 cl = Some (Z.of_nat (length body)) ->
+  parse_response meth bufsize
+    (bs "HTTP/1.1" ++ SP :: ([d1; d2; d3] ++ SP :: reason) ++ CRLF ++
+     render_fields (fs ++ [cl_field cl]) ++ CRLF ++ body ++ rest) =
+    Accepted {| r_proto := bs "HTTP/1.1";
+                r_code := (100 * dval d1 + 10 * dval d2 + dval d3)%Z;
+                r_status := [d1; d2; d3] ++ SP :: reason;
+                r_header := hadd K_CL cl (header_of_fields fs);
+                r_content_length := Z.of_nat (length body);
+                r_chunked := false; r_close := false;
+                r_framing := (if (Z.of_nat (length body) =? 0)%Z then FrNone
+                              else FrLength (Z.of_nat (length body)));
+                r_trailer_declared := [] |}
+             {| b_data := body; b_end := BOk; b_trailer := []; b_rest := rest |}.
+Proof. exact response_round_trip_length. Qed.
+Print Assumptions C04_response_round_trip_length.
+
 (* the model's one-step line reader IS textproto's readLineSlice over bufio.ReadLine's
    buffer-sized fragments (ReadSlice finds LF iff within the buffer; ErrBufferFull => isPrefix,
    a trailing CR put back; a final fragment without LF; io.EOF drops what was read), for every
@@ -443,3 +473,17 @@ Example C04_client_nonvacuous :
   | None => False
   end.
 Proof. vm_compute. repeat split. Qed.
+
+(* ... and the end-to-end theorem's hypotheses are satisfiable by a message with a folded
+   header, an oddly spelled Content-Length and pipelined bytes behind it *)
+Example C04_message_nonvacuous :
+  let fs := [ {| hf_name := bs "x-fold"; hf_first := bs "a"; hf_conts := [(bs "  ", bs "b")] |};
+              {| hf_name := bs "ETAG"; hf_first := bs "W/""x"""; hf_conts := [] |} ] in
+  Forall field_ok fs /\ Forall plain_field fs /\
+  parse_uint63 (bs "0005") = Some (Z.of_nat (length (bs "hello"))) /\
+  body_allowed_for_status (100 * dval "4" + 10 * dval "0" + dval "4")%Z = true.
+Proof.
+  cbn zeta. split; [|split; [|split]]; try (vm_compute; reflexivity).
+  - repeat constructor; cbn; try discriminate; try reflexivity.
+  - repeat constructor.
+Qed.
